@@ -228,7 +228,9 @@ type fetchRec struct {
 
 // probeState is a GetDutyDefinition call made from inside a beacon node callback.
 type probeState struct {
-	goid   int64
+	duty     core.Duty
+	resolved uint64 // resolvedEpoch when the call was made
+	goid     int64
 	cancel context.CancelFunc
 	res    chan string
 	out    string
@@ -1527,7 +1529,7 @@ func (e *episode) classifyGetDef(set core.DutyDefinitionSet, err error) string {
 // the epoch-resolved channel.
 func (e *episode) startGetDef(duty core.Duty) *probeState {
 	ctx, cancel := context.WithCancel(context.Background())
-	ps := &probeState{cancel: cancel, res: make(chan string, 1)}
+	ps := &probeState{cancel: cancel, res: make(chan string, 1), duty: duty, resolved: e.sched.SnapshotVerif().ResolvedEpoch}
 	idc := make(chan int64, 1)
 	go func() {
 		idc <- curGoid()
@@ -1572,6 +1574,13 @@ func (e *episode) endGetDef(ps *probeState) string {
 		ps.cancel()
 		ps.out = <-ps.res
 		ps.done = true
+		// waiting is only justified for an epoch that resolvedEpoch did not cover when the call was made
+		if ps.resolved != maxInt64 && ps.resolved >= ps.duty.Slot/e.spe {
+			e.mu.Lock()
+			e.notes = append(e.notes, note{sig: "sched:get_duty_definition_blocked_on_resolved_epoch",
+				descr: fmt.Sprintf("GetDutyDefinition(%v) waited for its epoch %d to be resolved although resolvedEpoch was %d", ps.duty, ps.duty.Slot/e.spe, ps.resolved)})
+			e.mu.Unlock()
+		}
 	}
 	ps.cancel()
 	// the goroutine must be gone before goroutines are counted again
@@ -1584,6 +1593,10 @@ func (e *episode) endGetDef(ps *probeState) string {
 func (e *episode) doGetDef(run *hx.Run, slot uint64, ty int) string {
 	ps := e.startGetDef(core.Duty{Slot: slot, Type: core.DutyType(ty)})
 	out := e.endGetDef(ps)
+	if out == "blocked" {
+		run.Violate("sched:get_duty_definition_blocked_outside_resolution", fmt.Sprintf("GetDutyDefinition(%d/%d) waits although no resolution is running", slot, ty))
+	}
+	e.flushNotes(run)
 	run.Case("getdef:" + strings.SplitN(out, "{", 2)[0])
 	return out
 }
